@@ -43,13 +43,15 @@ PROPS["C01"] = {
             "distinct canonical JSON of the case (64-bit hash), unioned over shards. "
             "Macro op prune: remove every key (or every other key) that is not on the path from the root to a deepest leaf, so the size shrinks while the height stays. "
             "ELEMENT KINDS: about half of the cases instantiate the tree with the struct type Key; the others use int, string, an 88-byte comparable struct, *Cell (a new pointer per call, deeply equal pointees), any holding *Cell, or []byte. Elements are converted at the API boundary while the reference stays in ints. Where the kind carries an identity, the element held must be the very one supplied by the successful Add or latest Replace (a Get after each checks it). Probes (Get/Remove/Cursor arguments) are equivalent but not identical elements. For int and string, half of the cases use a comparison that is the reverse of the type's natural order. "
-            "Iterations are also nested: a second InorderAfter / Inorder is started inside the loop body of an InorderAfter (run to its end or abandoned) and both must list what they list alone.",
+            "Iterations are also nested: a second InorderAfter / Inorder is started inside the loop body of an InorderAfter (run to its end or abandoned) and both must list what they list alone. "
+            "RE-ENTRANT AND STORED ITERATION: iterations (Inorder, InorderAfter) run with loop bodies that make every call documented as non-mutating on the tree being iterated - Clone (also edited afterwards), Get, Len, IsEmpty, Min/Max, String, Cursor, Root, nested iterations - at the first, j-th, last or every element; the outer listing and the clone taken inside must equal the reference. Cursors are held across such calls. InorderAfter sequences and the method value t.Inorder are stored in slots (op seqKeep) and ranged later (op seqRange: completely, twice, partially then completely, stopped) after insert/remove runs and mass removals; since the documentation does not say whether such a sequence is a snapshot or a view, each pass must equal the reference >= k at creation OR at ranging time (the library gives the latter) - a mixture is a violation.",
     "assumptions": COMMON_ASSUME + ["the comparator is a valid total preorder on one struct key type"],
 }
 
 PROPS["C02"] = {
     "legs": [rapid("bound", "pstree", "TestC02Bound", 8, 1500, 16, 40000),
-             plain("newheight", "pstree", "TestC02NewHeights")],
+             plain("newheight", "pstree", "TestC02NewHeights"),
+             plain("long", "pstree", "TestC02Long", shards={"quick": 4, "thorough": 8})],
     "rule": "leg bound: histories as in C01 plus an adaptive adversary op that inserts a fresh key directly beneath a "
             "deepest leaf (located by a cursor walk; through Add or Replace); beta in [0,999]; trees up to 2000 nodes; after EVERY single "
             "operation (each element of a run) the height is measured through Root/Left/Right/Up and "
@@ -59,7 +61,8 @@ PROPS["C02"] = {
             "(by a shadow of the documented rule, used for labelling only). leg newheight: New(n distinct keys) for "
             "every n up to a bound and beta in {0,250,999}: height == floor(log2 n); non-trivial = n is a power of "
             "two or one less. "
-            "Element kinds as in C01 (the depth and comparison bounds are independent of the element type); the newheight leg adds one case per n cycling through the kinds.",
+            "Element kinds as in C01 (the depth and comparison bounds are independent of the element type); the newheight leg adds one case per n cycling through the kinds. "
+            "leg long (directed, sharded over processes): insertion-only trees of 5500..74000 keys (thorough: to 1.2 million) in ascending, descending, outside-in, inside-out, two-interleaved-runs and pseudo-random order at beta 0/250/999/one seeded value (strict factors only for the smaller sizes and loose ones only for the smallest: the library's own cost is quadratic there): after EVERY Add the depth of the key just inserted (Cursor(key), then Up to the root) must satisfy the same exact bound with P = Len, and every 4096 insertions the whole tree is measured. The scapegoat of a too-deep insertion into such a tree lies more than ten levels above the new leaf. The first cases of every shard - the first trees of the process - are 300-key trees made AFTER trees with other balance factors (a creation order picked by shard and seed from a table that includes beta = 1000): trees are independent of one another whatever the order they are made in. Non-trivial = at least 4096 keys and within one level of the bound at some checkpoint.",
     "assumptions": COMMON_ASSUME,
 }
 
@@ -78,7 +81,8 @@ PROPS["C03"] = {
             "has height >= 4 and some node's successor is a proper ancestor >= 2 levels up. Distinct = hash of the case JSON. "
             "Element kinds as in C01; cursor probes carry a different identity from the stored key. "
             "Cursor.Inorder is also started again from inside its own loop body (two reads of one cursor). "
-            "Move 'root' restarts one or both cursors from separate Tree.Root() calls.",
+            "Move 'root' restarts one or both cursors from separate Tree.Root() calls. "
+            "The inorder moves also range over the cursor's Inorder while the loop body moves the iterated cursor itself (or its Clone, or the original while the Clone is iterated) by 1-3 moves at the first, middle, last or every visit: the listing must be the subtree of the position at call time, and the cursors must end where the move model says.",
     "assumptions": COMMON_ASSUME,
 }
 
@@ -187,7 +191,8 @@ PROPS["C10"] = {
     "legs": [rapid("stack", "pseq", "TestC10Stack", 4, 2000, 16, 60000),
              rapid("mqueue", "pseq", "TestC10MQueue", 4, 2000, 16, 60000),
              rapid("list", "pseq", "TestC10List", 4, 2000, 16, 60000),
-             rapid("ring", "pseq", "TestC10Ring", 4, 2000, 16, 60000)],
+             rapid("ring", "pseq", "TestC10Ring", 4, 2000, 16, 60000),
+             plain("ringbig", "pseq", "TestC10RingBig")],
     "rule": "Four rapid legs, each drawing a history as data and comparing with a reference after EVERY step. "
             "stack / mqueue: zero value or constructor; Push/Add/Pop/Top/Front/Peek(n in and out of range; n<0 must panic)/"
             "Each(stop after j)/Len/IsEmpty/Clear/Slice and runs, against a reference slice (Each/Slice of the stack newest "
@@ -219,7 +224,8 @@ PROPS["C10"] = {
             "over shards. "
             "ELEMENT KINDS (the library is generic, so the property must hold for every instantiation; a change that special-cases a type through a type switch, reflect, unsafe.Sizeof, DeepEqual or fmt is only visible this way): every leg draws an element kind for its container: half of the cases use int; the rest instantiate Stack/Queue/List/Ring with string, int16, an 88-byte comparable struct, *Cell pointers, []byte or any (holding fresh pointers). The model stays in ints and every comparison additionally requires, for the kinds with an identity, that the element returned/listed is the very element that was handed in (pointer / backing array / value+ID), with the zero value of T where the int model has 0. In the list leg half of the Sets through a cursor at a real element (spliced in by construction) supply a NEW element whose value (for pointer-like kinds: whose pointee/contents) equals the one it replaces, and the list must then hold the element that was set; ring.Of must store the given elements themselves and ring.New zero values. Peek/At offsets include the ends of the int range. "
             "The each ops also start a second Each inside the callback of the first. "
-            "One list Add in ten passes 15..65 values in a single call.",
+            "One list Add in ten passes 15..65 values in a single call. "
+            "BIG CONTAINERS: about one ring case in 16 additionally builds one large ring beside the pool (sizes around powers of two from 64 to 4096, round and odd sizes, or uniform up to 6000) by Of, New, Join of two rings, Pop of some elements, or a run spliced out by a same-ring Join; after one Next/Prev/Len/Each check of the cycle, At and Peek are compared at both signs of offsets around 0, Len/2, Len, 2*Len, powers of two +-1, Len+-2^k, round numbers and MaxInt with the documented rule (the element |n| steps away while |n| < Len, nil / (zero, false) beyond, either accepted at |n| == Len). Leg ringbig sweeps the same probe over every favoured size up to 2^16+2 (thorough: 2^20+2); non-trivial there = ring of >= 1024 elements. About one stack / mqueue / list case in 16 additionally builds one long container (same sizes; list filled by one variadic Add, per-element Add at the end cursor, or Push at the front; a few elements popped or removed again) and checks Len, Each, and Peek (and List.At) at the same offset families: in range the very element and true, from Len on ok = false / the end cursor.",
     "assumptions": COMMON_ASSUME + [
         "a hang is recognised by the kit's watchdog (case still running after 30 s wall and 20 s CPU; the operations are O(n <= 64))",
         "mlink cursors are value-copyable (the position check walks a copy of the cursor)",
@@ -244,7 +250,8 @@ PROPS["C08"] = {
             "following that model. NON-TRIVIAL iff some eviction's victim had been re-ordered by an earlier Get or had a "
             "recency neighbour removed by Remove. Distinct = hash of the case JSON. "
             "ELEMENT KINDS (the library is generic, so the property must hold for every instantiation; a change that special-cases a type through a type switch, reflect, unsafe.Sizeof, DeepEqual or fmt is only visible this way): half of the cases keep Cache[int, Val] with OnEvict then WithSize. The rest draw keys from int / string / 88-byte struct / int16 (key 0 is the key type's zero value) and values from Val / *Cell / any holding *Cell / 88-byte struct / string or []byte sized by cache.Length (limit and sizes x8, the empty value has size 0 and no identity; with no size function the lengths are 8 to 68). For *Cell values of equal size the pointees are deeply equal but the pointers distinct. They also draw the options in either order, given twice (the last wins, the earlier functions must never be called), set on a discarded copy, or absent, and may bracket every step with Has(key). Every element handed back by Get or the callback must be the very element that was Put. putSame re-puts the identical element and putEq a new element of equal size (a new pointer to an equal pointee); both must produce the replaced-entry callback. "
-            "About 1 case in 300 contains a marathon: 33 000-70 000 replacing Puts or Remove/Put pairs on one or two keys, every step checked. A quarter of the cases start with 'stir and flush': fill exactly, 2-7 Gets/Removes/replacing Puts, then limit+1 fresh keys so that the whole eviction order is observed. leg longrun (thorough: 2^31+1000 and 2^32+1000 successful Gets between Put(1),Put(2) and Put(3), which must evict key 2; quick: 3 million).",
+            "About 1 case in 300 contains a marathon: 33 000-70 000 replacing Puts or Remove/Put pairs on one or two keys, every step checked. A quarter of the cases start with 'stir and flush': fill exactly, 2-7 Gets/Removes/replacing Puts, then limit+1 fresh keys so that the whole eviction order is observed. leg longrun (thorough: 2^31+1000 and 2^32+1000 successful Gets between Put(1),Put(2) and Put(3), which must evict key 2; quick: 3 million). "
+            "HUGE LIMITS: about one case in 12 draws its limit from the whole int64 range (both sides of 2^31, 2^32, 2^53, 2^62 and up to MaxInt64) with a size function returning values up to the limit - size 0, exactly the limit, just above the limit (a legal refused Put), key-dependent low bits; every sum the cache must form is constructed (not filtered) to stay within int64, and each step is compared with the int64 reference LRU model.",
     "assumptions": COMMON_ASSUME + ["a defect whose symptoms coincide with the F2 deviation model on every generated history would be filed under F2"],
 }
 
@@ -277,7 +284,8 @@ PROPS["C09"] = {
             "callback must report each entry exactly once; evaluations = executions, non-trivial = executions in which a "
             "reader saw both states (counted, not deduplicated: executions are not reproducible). "
             "Half of the workloads use keys in int / string / 88-byte struct and values in Val / *Cell / string, up to 5 keys. One third of the workloads run on a USER-SUPPLIED Store passed through WithStore (the Store documentation promises that the Cache serialises access to it): a lock-free recency list whose every method, Check included, writes plain counters; in raw executions only the cache's lock orders the calls, so the race detector reports any gap, stamped executions also count the calls inside the store. One fifth are single-goroutine workloads (limit 4-5, unit sizes: fill, Remove, Get, fresh Puts) that are stepped directly against the reference LRU, naming the first wrong call; they never count as non-trivial. Elements are made before and converted after the concurrent phase, so the harness adds no synchronisation. Put sizes include 0 (cache.Length of an empty value). "
-            "leg multi (race build): 2, 4 or 8 caches live at once, each used by ONE goroutine running a C08 history against the sequential reference (every 50th group: 8 tiny caches with thousands of operations each): caches share nothing a caller can see, so every one must behave as it does alone.",
+            "leg multi (race build): 2, 4 or 8 caches live at once, each used by ONE goroutine running a C08 history against the sequential reference (every 50th group: 8 tiny caches with thousands of operations each): caches share nothing a caller can see, so every one must behave as it does alone. "
+            "About one workload in 6 uses the huge limits and sizes of C08 (concurrent, one-goroutine and the private caches of leg multi), with sizes constructed so that no schedule can overflow int64: a refused Put of a value that fits, or an eviction although everything fits, is a violation.",
     "assumptions": COMMON_ASSUME + [
         "the Go scheduler is not owned by the harness: interleavings are sampled, not enumerated; a defect that needs one specific preemption inside a few instructions can be missed",
         "the Go race detector reports only races that occur in an execution",
@@ -303,7 +311,8 @@ PROPS["C13"] = {
             "of the case JSON (rand). "
             "Memory layouts: the two arguments of New are separate slices, or (where one is a prefix / suffix of the other, which the generator produces on purpose) that very prefix / suffix of the other's memory, or adjacent windows of one buffer. "
             "The chunk oracle holds after every step of an arbitrary pipeline over New, AddContext (also repeated: each call adds at most its n lines to what was there), Unify and Diff.Format with any of the three formatters (rendering a diff must leave its chunks as they were); a finished diff stays intact while later diffs are built (vk Retain). "
-            "One rand case in four afterwards calls New again on one pair of slices whose contents were updated in place (same storage, same lengths, up to 3 rounds, one of them making the sides equal), under the same oracle.",
+            "One rand case in four afterwards calls New again on one pair of slices whose contents were updated in place (same storage, same lengths, up to 3 rounds, one of them making the sides equal), under the same oracle. "
+            "BIG DENSE INPUTS: leg exh additionally runs directed pairs of long inputs (described symbolically in the case: lengths, alphabet, seed, mode), 150 to 2500 lines (thorough: to 20000) over 3 to 8 different lines, so that the number of pairs of equal lines passes 2^12 to 2^20 (thorough 2^24), under the full oracle; leg rand draws such a pair (257 to 900 lines per side) for about one case in 150 (thorough: 100).",
     "assumptions": COMMON_ASSUME,
     "technique": "small-scope exhaustive enumeration + property-based testing (rapid) with an executable patch-application oracle",
 }
@@ -342,7 +351,8 @@ PROPS["C18"] = {
             "JSON of the case (64-bit hash), unioned over shards. "
             "Range is called with a restartable sequence or with a single-use one (a second pass yields nothing). "
             "ELEMENT KINDS (the library is generic, so the property must hold for every instantiation; a change that special-cases a type through a type switch, reflect, unsafe.Sizeof, DeepEqual or fmt is only visible this way): every case names an element kind: half keep Set[int] with the ints as members, the rest (and the whole exhaustive enumeration, once per kind) instantiate Set[T] with int/int16 at the ends of their ranges, strings (20-byte texts, the same with a suffix, short texts), 88-byte structs differing in one word, *Cell pointers (members are identities; neighbouring model values are distinct pointers to deeply equal cells), Set[any] with members of MIXED dynamic types (nil, int, string, *Cell, float64 that print alike) and float64 (integers, halves, -Inf, huge, denormals); model value 0 is the zero value of T in every kind, the reference stays in ints and all checks apply to every kind. For Set[float64] the op nanclear puts 1..3 NaN members into a variable through the built-in map operation and demands only that Clear leaves Len()==0; nothing else is asserted about NaN (a Go map can neither find nor delete a NaN key). "
-            "Element kinds also u8/i8, where model values 0..255 are ALL values of the type; op compl makes one variable the complement of another, so operand pairs that exactly partition the type occur by construction; Intersect takes 0..12 operands (exh: lists of 4..12 equal operands with one odd one at every position); results of Slice/Append/Keys are re-validated after the next case (vk Retain).",
+            "Element kinds also u8/i8, where model values 0..255 are ALL values of the type; op compl makes one variable the complement of another, so operand pairs that exactly partition the type occur by construction; Intersect takes 0..12 operands (exh: lists of 4..12 equal operands with one odd one at every position); results of Slice/Append/Keys are re-validated after the next case (vk Retain). "
+            "NEAR-EQUAL OPERANDS, REPEATED: leg exh also runs a directed (non-exhaustive) sweep: for every size n in 0..70 and 127, 128, 129, 255, 256, 257, 1000, a set A of n members and B = A, A with one member swapped for a fresh one, A less one, A plus one, n fresh members, or n members sharing exactly one with A (op near, built with built-in map operations). Equals, IsSubset, Intersects, HasAll, HasAny, Intersect, Add, AddAll, Remove and RemoveAll run on (A,B) and (B,A), each evaluated 32 times for n <= 70 (16, 8, 4 for larger; x8 thorough) because map iteration order differs per call (op field r); mutators are repeated on fresh copies, and item lists are the other set's members, rotated per call. Leg hist draws the same shape in about 1 case in 32. Element kind unit = Set[struct{}] (one value) is enumerated over universe {0} and drawn in about 4% of histories.",
     "assumptions": COMMON_ASSUME + [
         "element kinds as listed in the rule; other instantiations are assumed to behave like one of them",
         "writing to the underlying map directly (documented as allowed) is used for the aliasing probe",
@@ -395,7 +405,8 @@ PROPS["C19"] = {
             "leg huge: buffers of 2^17+1 .. 2^20 elements: fill with size-1, about 3/4 size, or 1-2 x size distinct values (exact Len/Count checked every 4096 values while below capacity; Count = Len x 2^k at the end), Reset (Len = Count = 0), then a small exact stream; non-trivial iff more than 2^18 values were buffered at the Reset. "
             "ELEMENT KINDS (the library is generic, so the property must hold for every instantiation; a change that special-cases a type through a type switch, reflect, unsafe.Sizeof, DeepEqual or fmt is only visible this way): about half of the det/reuse/stat cases and the original huge cases use Counter[int] on the stream values; the others instantiate Counter with int (range ends, pairs equal mod 2^32 or equal as float64), string, int16, an 88-byte struct, [64]byte, [512]byte, *Cell (nil; distinct pointers with deeply equal pointees are distinct values), any (nil, *Cell, int/int32/string of the same text) or float64 (+0/-0 are one value; a NaN is buffered only before a Reset, after which Len = Count = 0), every stream value mapped one-to-one to an element and value 0 to the zero value. About 10% of det cases and several huge cases use buffer sizes no stream can fill (2^16 .. 2^32+100, 3<<32, 2^52, 2^62, MaxInt): the counter must stay exact throughout. The huge leg also keeps counters of 88-, 64-, 512- and 16-byte elements exact with more than 4, 16 and 64 MiB of elements buffered, and all 65536 int16 values; non-trivial (huge) iff more than 2^18 values or more than 4 MiB of elements were buffered. leg nan: Counter[float64] of size 2..100 fed up to 4 x size values, NaNs among them: asserted is only that every Add returns (kit watchdog) and that Reset leaves Len = Count = 0 (regression of F8b). "
             "leg long: R independent counters of size 3..8 are fed 2^19..2^21 distinct values (16..20 eviction passes); the deterministic clauses are checked every 1024 Adds, and the mean Count must exceed T*n with T = 1 - sqrt(2c*ln(1e10)/R), c = E[Count^2]/n^2 from the exact law of the algorithm (a proved lower-tail bound for sums of non-negative variables: false-alarm probability <= 1e-10 per case). leg marathon: W parallel counters of size 2 or 3 fed 0,1,2,... with Len <= size and 'Count is Len times a non-decreasing power of two' checked every 65536 Adds until a multiplier >= 2^24 (quick) / 2^32 (thorough: about 10^9 Adds each on 16 counters) is seen. "
-            "leg indep: 600 counters of size 4 (and 300 of size 2) constructed one after the other and fed the same stream: no period p <= N/2 may make the (Len, Count) trajectories of counters i and i+p identical for every i (independent runs; chance agreement of even one pair is far below 2^-40).",
+            "leg indep: 600 counters of size 4 (and 300 of size 2) constructed one after the other and fed the same stream: no period p <= N/2 may make the (Len, Count) trajectories of counters i and i+p identical for every i (independent runs; chance agreement of even one pair is far below 2^-40). "
+            "LARGE BUFFERS AND TINY TYPES: leg stat additionally runs buffers 16384, 20000, 32768 (every run) and two seed-rotated sizes in 1024..65536, streams of 5..9 x the size described symbolically in the case, R = 128..1024 counters, same band (8 standard errors; with R-1 degrees of freedom Wallace's bound on Student's t keeps the band beyond 7 normal deviations for R >= 100, and it widens automatically for smaller R); thorough sweeps sizes 2^4..2^17 and their midpoints. Legs det / huge: the element kinds include types with 1, 2 and 256 values (struct{}, [0]int, a struct of zero-size fields, bool, uint8); stream value x stands for x mod card and the oracle works on the reduced stream, so a Counter[struct{}] must report Count == Len == 1 after any Adds at every buffer size.",
     "assumptions": COMMON_ASSUME + [
         "crypto/rand and math/rand/v2 ChaCha8 deliver independent uniform bits (the statistical clause is a statement about the algorithm, not about the entropy source)",
         "the false-alarm bound of the statistical leg for buffer sizes below 8 rests on simulation of the Student statistic out to the 1e-5 level and a normal-tail extrapolation with a safety factor of about 2 in standard deviations; it is not a proved bound",
@@ -445,7 +456,8 @@ PROPS["C20"] = {
             "(seeded random extras are de-duplicated); naturalrand = distinct canonical JSON (64-bit hash) unioned "
             "over shards. "
             "leg mbitsval (rapid): groups of 2/4/8 eight-byte words whose values cancel under addition modulo 2^64 or under xor (or are arbitrary), behind 0..80 zero bytes, at all 8 alignments, ragged lengths: LeadingZeroes/TrailingZeroes/Zero against the byte-by-byte definitions. "
-            "Non-digit tokens of the natural-order legs contain, one character in ten, non-ASCII decimal digits, fullwidth digits and letters, superscripts and Roman numerals (CompareNatural's digits are '0'..'9' only).",
+            "Non-digit tokens of the natural-order legs contain, one character in ten, non-ASCII decimal digits, fullwidth digits and letters, superscripts and Roman numerals (CompareNatural's digits are '0'..'9' only). "
+            "POSITION SWEEP (second part of leg mbits): lengths 64..4099 around powers of two x 20 addresses modulo 64 (all of 0..15) with 72-byte guards: all-zero, all-random, and every position of one non-zero byte (01/80/FF) with zeros elsewhere / random bytes before / random bytes after; length 65541 (thorough: up to 1 MiB) at 8 addresses for the first/last 700, 200 middle and 100 seeded positions; same oracle as the first part (non-trivial there: the designated byte lies outside the first and last 8 bytes, or the buffer is the random one). In mbitsval 1 case in 16 is a buffer of up to ~6 KiB whose cancelling word group sits on a 16/32/64-byte block from either end; half of the cases are placed at addresses 0..63 modulo 64.",
     "assumptions": COMMON_ASSUME + [
         "amd64: unaligned 64-bit loads/stores are legal; an out-of-slice READ is detected only when it changes the result (both guard values are tried), an out-of-slice WRITE only within the 8..15 guard bytes on each side",
         "int is 64 bits; digit runs are limited to 17 significant digits in generated inputs",
@@ -483,7 +495,8 @@ PROPS["C14"] = {
             "line that is empty or starts with one of - + < > @ space \\ * ! d or a digit (git leg: >=2 file sections). "
             "Distinct: by construction (exh), hash of the case JSON (rand, git), distinct (L,R,n) (gnupatch). "
             "Every reader call stands for itself: 40% of the rand/git cases first parse a malformed variant of the text (9 shapes x 8 stray lines; outcome ignored) directly before the real parse, and parsed patches are re-validated after the next case (vk Retain). Header names include complete quoted literals (\"x\", `x`, 'a'). "
-            "The formatters write into a bytes.Buffer directly, through a writer that offers Write only, or through a flushed bufio.Writer (chosen by the shape of the diff). Header names may be empty (then only the timestamps are required to survive: the placeholder written for an empty name is undocumented).",
+            "The formatters write into a bytes.Buffer directly, through a writer that offers Write only, or through a flushed bufio.Writer (chosen by the shape of the diff). Header names may be empty (then only the timestamps are required to survive: the placeholder written for an empty name is undocumented). "
+            "Headers also use FileInfo.TimeFormat set to one of about 30 caller layouts (one header in three): then the names must survive (the times need not) and re-formatting must reproduce the hunks and names. The git leg varies the ---/+++ names, including /dev/null and near misses of it on either or both sides with an empty file side, a trailing tab after the name, and timestamps; names and default-format times must come back and re-formatting of each parsed section must reproduce the library's own text of it (skipped where known finding F5 collapsed a one-line range).",
     "assumptions": COMMON_ASSUME + ["lines contain no newline and no carriage return", "GNU patch 2.7.6 is the external differential oracle; when it is absent leg gnupatch is skipped and says so"],
     "technique": "small-scope exhaustive enumeration + property-based testing (rapid): round-trip, reference appliers, GNU patch differential",
 }
@@ -507,7 +520,8 @@ PROPS["C15"] = {
             "words, 4000 words per shell invocation; the first discrepancy of a batch is confirmed by running that word "
             "alone. NON-TRIVIAL iff a string is empty, has a non-ASCII byte, or has a single quote adjacent to a "
             "must-quote character. Distinct: by construction (exh, shells: distinct strings), hash of the case JSON (lists). "
-            "Lists also contain runs of 2-5 adjacent identical elements of exact lengths around 8/16/32/64/128/256 bytes; every string returned by Quote, Join and Split is kept with a copy taken at once and re-compared after other calls in the same case and after the next case (vk Retain).",
+            "Lists also contain runs of 2-5 adjacent identical elements of exact lengths around 8/16/32/64/128/256 bytes; every string returned by Quote, Join and Split is kept with a copy taken at once and re-compared after other calls in the same case and after the next case (vk Retain). "
+            "OWNERSHIP OF RESULTS: after every validated Split(Join(ss)) / Split(Quote(s)) the caller overwrites the whole returned slice (all of its capacity, plus append to r[:0]) and repeats the identical call immediately and again after one call with a same-length sibling argument; each result is validated from scratch and earlier, scribbled slices must stay untouched. Join is repeated on a copy of the list, on the same slice overwritten in place, and after restoring it (lists <= 4 KiB joined; larger inputs get the immediate repetition only).",
     "assumptions": COMMON_ASSUME + ["dash and bash implement POSIX quoting for the generated words (brace expansion, a bash extension, is switched off with +B); when neither shell exists leg shells is skipped and says so", "NUL-containing strings are excluded from the real-shell oracle only"],
     "technique": "small-scope exhaustive enumeration + property-based testing (rapid): round-trip, independent POSIX scanner, differential against real shells",
 }
@@ -536,7 +550,8 @@ PROPS["C16"] = {
             "than by a blank right after a plain character. Distinct: by construction (exh, shells), hash of the case JSON (rand). "
             "About 1 case in 400 pads the input to 0.5-2 MiB (reference tokenizer vs Split and Scanner.Split incl. the ok / Complete flag); source readers: the chunked reader, strings.Reader, bytes.Buffer, bufio.Reader of 16 / 4096 / 65536 bytes, LimitReader. "
             "leg conc: 8 goroutines each tokenize an escape-heavy input of their own (Split, a reused Scanner, a new Scanner) for a bounded number of iterations and must keep obtaining the reference tokenizer's fields and flag; leg rand draws escape-heavy inputs in one case of seven, so that the side-by-side mode overlaps different escapes. "
-            "After the last token the chunked source is given more bytes (a source that grows after io.EOF): Next must keep returning false.",
+            "After the last token the chunked source is given more bytes (a source that grows after io.EOF): Next must keep returning false. "
+            "Every Split result compared with the reference is scribbled over and the identical call repeated (immediately, and after Split of a one-byte sibling checked against the reference); Scanner.Split is repeated on a new scanner and on the same scanner through Reset after scribbling; a second Split on an exhausted scanner must return no tokens; in leg conc each goroutine scribbles its Split results and every sixth iteration repeats the call at once.",
     "assumptions": COMMON_ASSUME + ["the real-shell comparison is restricted to the statement's domain: complete inputs without unquoted newlines over the tokenizer's classes"],
     "technique": "small-scope exhaustive enumeration + property-based testing (rapid): differential against an independent reference tokenizer and real shells; reader fragmentation",
 }
@@ -570,7 +585,8 @@ PROPS["C11"] = {
             "leg big (rapid): lhs = 0..n-1 (optionally mod 2/7/100/1000) for n in {1100, 2050, 4097, 4100, 4200, 5000}, rhs = lhs with up to 6 deletions and 6 insertions (one of them near the start), either role; the same validity / span / canonical-form checks, minimality against a two-row LCS-length DP; non-trivial iff the input has repeats. "
             "ELEMENT KINDS: half of the cases (random legs) and half of the indices (exhaustive legs, dealt by a hash of the case index) keep int elements; the others instantiate the functions with string, int16, an 88-byte struct, *Cell pointers, interface elements holding pointers, float64 (zeros of either sign, which are == and must be treated as equal), a word-table string kind containing 32-bit checksum-collision pairs (FNV-1, FNV-1a, Adler-32) and, optionally, strings that share storage as prefixes of one another, and []byte for the ...Func variants. Elements carry an identity besides their value, so inputs with the same values but different elements (distinct pointers to deeply equal pointees) are different inputs for ==, and every identity/aliasing check runs on the instantiated slices. "
             "One rand case in four is followed by one or two rounds that rewrite lhs or rhs IN PLACE (same arrays, same lengths) and diff again under the full oracle; one in eight is followed by a second input pair, after which every earlier script is compared with a header copy taken when it was returned (also after the next case, vk Retain). One rand case in ten has lengths whose sum or product, or both lengths, sit at or next to 64, 100, 128, 200, 256, 512, 1000, 1024. "
-            "Cases of the interface kind are followed by one more call on []any inputs of plain ints in which ONE lhs element is a slice value (unhashable, and == never meets its own dynamic type): no panic, the script turns lhs into rhs and keeps as many elements as an LCS with that element matching nothing.",
+            "Cases of the interface kind are followed by one more call on []any inputs of plain ints in which ONE lhs element is a slice value (unhashable, and == never meets its own dynamic type): no panic, the script turns lhs into rhs and keeps as many elements as an LCS with that element matching nothing. "
+            "ZERO-SIZE ELEMENTS AND POISONED CALLS: one random case in 16 uses a zero-size element type (struct{}, [0]int; for the Func variants also the uncomparable [0]func()), and the exhaustive legs add every pair of lengths up to 40 (EditScript) and 30 (LCS / LCSFunc) and every length up to 300 for LISFunc / LNDSFunc with them. One case in 6 (EditScript, LCS), one in 8 (LIS/LNDS) and one in 32 of the exhaustive legs is preceded or followed by a call whose comparison PANICS and is recovered by the caller (a panicking eq/cmp after J calls, or []any holding slices on both sides so that == panics): that panic is the caller's, but the case's own calls - and the next case - must still satisfy the full oracle (state left behind in a pool, memo or package-level rows shows here).",
     "assumptions": COMMON_ASSUME + ["element kinds as listed in the rule; EditScript is generic in T but its control flow "
                                     "does not depend on T"],
 }
@@ -612,7 +628,8 @@ PROPS["C12"] = {
             "distinct canonical JSON of the case (rapid legs, 64-bit hash, unioned over shards). "
             "ELEMENT KINDS: half of the cases (random legs) and half of the indices (exhaustive legs, dealt by a hash of the case index) keep int elements; the others instantiate the functions with string, int16, an 88-byte struct, *Cell pointers, interface elements holding pointers, float64 (zeros of either sign, which are == and must be treated as equal), a word-table string kind containing 32-bit checksum-collision pairs (FNV-1, FNV-1a, Adler-32) and, optionally, strings that share storage as prefixes of one another, and []byte for the ...Func variants. Elements carry an identity besides their value, so inputs with the same values but different elements (distinct pointers to deeply equal pointees) are different inputs for ==, and every identity/aliasing check runs on the instantiated slices. LIS/LNDS natural order also runs on string, int16 and float64 stretched over the kind's whole range; with NaNs in a float64 input only this is asserted: no panic, input unchanged, the result is a bitwise subsequence sorted under cmp.Compare, with a length between the optimum of the non-NaN elements and the optimum under cmp.Compare. "
             "lcsrand draws the same round-number lengths in one case in six; lisrand has a shape 'non-decreasing run of exactly 2^k (32..256, rarely 512/1024, +-1) elements, then a strict new minimum, then a run building on it', in every comparison. Returned LIS/LNDS/LCS slices are compared with frozen copies after the later call of the case and after the next case. "
-            "One lcsrand case in 12 calls LCSFunc with the symmetric but non-transitive relation |a-b| <= 1 (the documentation asks only for a function 'to compare elements'): the result must be a subsequence of one input whose elements are related, in order, to elements of the other, of the length of the largest monotone matching. leg conc: 8 goroutines at once, each calling LNDS and LIS 40-100 times on a private input of 64..5000 ints, every result under the sequential oracle.",
+            "One lcsrand case in 12 calls LCSFunc with the symmetric but non-transitive relation |a-b| <= 1 (the documentation asks only for a function 'to compare elements'): the result must be a subsequence of one input whose elements are related, in order, to elements of the other, of the length of the largest monotone matching. leg conc: 8 goroutines at once, each calling LNDS and LIS 40-100 times on a private input of 64..5000 ints, every result under the sequential oracle. "
+            "ZERO-SIZE ELEMENTS AND POISONED CALLS: one random case in 16 uses a zero-size element type (struct{}, [0]int; for the Func variants also the uncomparable [0]func()), and the exhaustive legs add every pair of lengths up to 40 (EditScript) and 30 (LCS / LCSFunc) and every length up to 300 for LISFunc / LNDSFunc with them. One case in 6 (EditScript, LCS), one in 8 (LIS/LNDS) and one in 32 of the exhaustive legs is preceded or followed by a call whose comparison PANICS and is recovered by the caller (a panicking eq/cmp after J calls, or []any holding slices on both sides so that == panics): that panic is the caller's, but the case's own calls - and the next case - must still satisfy the full oracle (state left behind in a pool, memo or package-level rows shows here).",
     "assumptions": COMMON_ASSUME + ["comparison functions are total preorders on ints (natural, reversed, v>>1); the "
                                     "equality passed to LCSFunc is an equivalence relation"],
 }
@@ -648,7 +665,8 @@ PROPS["C17"] = {
             "= distinct by construction (exh) / distinct canonical JSON of the call (rand). "
             "ELEMENT KINDS: the same calls are made with string, int16, 1-byte, 88-byte struct, pointer, interface, float64 and []byte elements (kinds dealt by case index / drawn for half of the random cases); Partition additionally gets equal-looking but distinguishable elements (+0/-0 with a sign predicate, distinct pointers to deeply equal pointees with an identity predicate) and must still return exactly the elements the predicate accepts. Rotate/At/PtrAt arguments include math.MinInt/MaxInt. "
             "About one rand case in 4000 is a Rotate of an int slice of 2^20-1 .. 2^22+135 elements checked position by position in O(n), three in four of them directly after a Rotate of m = a*b elements by k with gcd(k, m) > 1, the long slice having 2^21+m or 2^22+m elements and rotated by k or k+-1; a quarter of the small Rotates are preceded by a Rotate of another slice by the same k. Chunks/Batches results are re-checked after the next case. "
-            "Every batch of Batches, the last one and a single batch covering the whole slice included, must be capacity-clipped.",
+            "Every batch of Batches, the last one and a single batch covering the whole slice included, must be capacity-clipped. "
+            "ZERO-SIZE ELEMENTS: every call also runs on slices of zero-size element types (struct{}, [0]int, [0]func()), checked by lengths, capacities, piece counts and panics only, never by elements. A directed level calls Batches, Chunks, Head, Tail, At and PtrAt on slices of 2^31 up to math.MaxInt elements (which take no memory): Batches must give exactly min(n, len) clipped batches differing by at most one and summing to len, Chunks ceil(len/n) clipped chunks (including len+n beyond the int range: finding F9, repaired). About one random case in ten is zero-size, half of those with a huge length.",
     "assumptions": COMMON_ASSUME + ["element kinds as listed in the rule; Head/Tail/Stripe are only called with non-negative arguments "
                                     "(negative ones are not documented)"],
 }
